@@ -29,6 +29,13 @@ type cluster struct {
 }
 
 func cellTerm(c cluster) string {
+	if utf8.RuneCountInString(c.g) == 1 && utf8.ValidString(c.g) {
+		r, _ := utf8.DecodeRuneInString(c.g)
+		if c.style == 0 {
+			return "(c1 " + hx.Z(int64(r)) + " " + hx.Z(int64(c.w)) + ")"
+		}
+		return "(cs " + hx.Z(int64(r)) + " " + hx.Z(int64(c.w)) + " " + hx.Z(int64(c.style)) + ")"
+	}
 	return "(mkCell " + hx.Runes(c.g) + " " + hx.Z(int64(c.w)) + " " + hx.Z(int64(c.style)) + ")"
 }
 
@@ -699,14 +706,14 @@ func main() {
 	rich := hx.NewStream("rich", "model.Softwrap", "rich_case", "c16_rich_mismatches", "c16_rich_violations")
 	hard := hx.NewStream("hard", "model.Softwrap", "hard_case", "c16_hard_mismatches", "c16_hard_violations")
 	draw := hx.NewStream("draw", "model.Softwrap", "draw_case", "c16_draw_mismatches", "c16_draw_violations")
-	plain.ShardMax, rich.ShardMax, hard.ShardMax, draw.ShardMax = 250, 250, 500, 300
+	plain.ShardMax, rich.ShardMax, hard.ShardMax, draw.ShardMax = 150, 150, 500, 300
 	skipped := 0
 
 	smallWidths := []uint16{0, 1, 2, 3, 4, 5, 6}
 	exLen, nRandom, maxAtoms := 4, 500, 60
 	exLenRich := 3
 	if cfg.Thorough() {
-		exLen, nRandom, maxAtoms = 5, 6000, 200
+		exLen, nRandom, maxAtoms = 6, 2000, 120
 		exLenRich = 4
 	}
 	// the defects fixed in /repo (kept as regression inputs) and the examples of the test suite
